@@ -22,74 +22,106 @@ inductive Op where
   | removeAt (i : Nat) | removeFirst | removeLast | remove (x : Nat) | removeAll
   | getAt (i : Nat) | getFirst | getLast | reverse | filterMut (p : Nat → Bool) | trim
   | contains (x : Nat) | indexOf (x : Nat)
+  | size | foreach
+  /-- `copy_shallow` (`none`) / `copy_deep` (`some cp`), then — if it succeeded — destroy the original and go
+  on with the copy: puts copying into the history vocabulary ("copying preserves element order") -/
+  | copySwap (cp : Option (Nat → Nat))
 
-/-- what a call returns: status (none for `void`/`size_t` functions) and out-value -/
+/-- what a call returns: status (none for `void`/`size_t` functions), out-value, and the argument sequence
+its callback received (`foreach`) -/
 structure Out where
   st  : Option Stat
   val : Option Nat
+  log : List Nat
   deriving DecidableEq, Repr
 
 /-- does the operation ever call the allocator -/
 def Op.allocates : Op → Bool
-  | .addFirst _ | .addLast _ | .addAt _ _ | .trim => true
+  | .addFirst _ | .addLast _ | .addAt _ _ | .trim | .copySwap _ => true
   | _ => false
 
 /-- the ideal list (never refuses anything) -/
 def stepS (l : List Nat) : Op → Out × List Nat
-  | .addFirst x => (⟨some .ok, none⟩, DequeSpec.addFirst l x)
-  | .addLast x => (⟨some .ok, none⟩, DequeSpec.addLast l x)
-  | .addAt x i => let r := DequeSpec.addAt l x i; (⟨some r.1, none⟩, r.2)
-  | .replaceAt x i => let r := DequeSpec.replaceAt l x i; (⟨some r.1, r.2.1⟩, r.2.2)
-  | .removeAt i => let r := DequeSpec.removeAt l i; (⟨some r.1, r.2.1⟩, r.2.2)
-  | .removeFirst => let r := DequeSpec.removeFirst l; (⟨some r.1, r.2.1⟩, r.2.2)
-  | .removeLast => let r := DequeSpec.removeLast l; (⟨some r.1, r.2.1⟩, r.2.2)
-  | .remove x => let r := DequeSpec.remove l x; (⟨some r.1, r.2.1⟩, r.2.2)
-  | .removeAll => (⟨none, none⟩, [])
-  | .getAt i => let r := DequeSpec.getAt l i; (⟨some r.1, r.2⟩, l)
-  | .getFirst => let r := DequeSpec.getFirst l; (⟨some r.1, r.2⟩, l)
-  | .getLast => let r := DequeSpec.getLast l; (⟨some r.1, r.2⟩, l)
-  | .reverse => (⟨none, none⟩, l.reverse)
-  | .filterMut p => let r := DequeSpec.filterMut l p; (⟨some r.1, none⟩, r.2)
-  | .trim => (⟨some .ok, none⟩, l)
-  | .contains x => (⟨none, some (DequeSpec.contains l x)⟩, l)
-  | .indexOf x => let r := DequeSpec.indexOf l x; (⟨some r.1, r.2⟩, l)
+  | .addFirst x => (⟨some .ok, none, []⟩, DequeSpec.addFirst l x)
+  | .addLast x => (⟨some .ok, none, []⟩, DequeSpec.addLast l x)
+  | .addAt x i => let r := DequeSpec.addAt l x i; (⟨some r.1, none, []⟩, r.2)
+  | .replaceAt x i => let r := DequeSpec.replaceAt l x i; (⟨some r.1, r.2.1, []⟩, r.2.2)
+  | .removeAt i => let r := DequeSpec.removeAt l i; (⟨some r.1, r.2.1, []⟩, r.2.2)
+  | .removeFirst => let r := DequeSpec.removeFirst l; (⟨some r.1, r.2.1, []⟩, r.2.2)
+  | .removeLast => let r := DequeSpec.removeLast l; (⟨some r.1, r.2.1, []⟩, r.2.2)
+  | .remove x => let r := DequeSpec.remove l x; (⟨some r.1, r.2.1, []⟩, r.2.2)
+  | .removeAll => (⟨none, none, []⟩, [])
+  | .getAt i => let r := DequeSpec.getAt l i; (⟨some r.1, r.2, []⟩, l)
+  | .getFirst => let r := DequeSpec.getFirst l; (⟨some r.1, r.2, []⟩, l)
+  | .getLast => let r := DequeSpec.getLast l; (⟨some r.1, r.2, []⟩, l)
+  | .reverse => (⟨none, none, []⟩, l.reverse)
+  | .filterMut p => let r := DequeSpec.filterMut l p; (⟨some r.1, none, []⟩, r.2)
+  | .trim => (⟨some .ok, none, []⟩, l)
+  | .contains x => (⟨none, some (DequeSpec.contains l x), []⟩, l)
+  | .indexOf x => let r := DequeSpec.indexOf l x; (⟨some r.1, r.2, []⟩, l)
+  | .size => (⟨none, some l.length, []⟩, l)
+  | .foreach => (⟨none, none, l⟩, l)
+  | .copySwap cp => (⟨some .ok, none, []⟩, match cp with | none => l | some f => l.map f)
 
 /-- the concrete model -/
 def stepM (d : Deque) (m : Mem) : Op → Out × Deque × Mem
-  | .addFirst x => let r := d.addFirst x m; (⟨some r.1, none⟩, r.2.1, r.2.2)
-  | .addLast x => let r := d.addLast x m; (⟨some r.1, none⟩, r.2.1, r.2.2)
-  | .addAt x i => let r := d.addAt x i m; (⟨some r.1, none⟩, r.2.1, r.2.2)
-  | .replaceAt x i => let r := d.replaceAt x i m; (⟨some r.1, r.2.1⟩, r.2.2.1, r.2.2.2)
-  | .removeAt i => let r := d.removeAt i m; (⟨some r.1, r.2.1⟩, r.2.2.1, r.2.2.2)
-  | .removeFirst => let r := d.removeFirst m; (⟨some r.1, r.2.1⟩, r.2.2.1, r.2.2.2)
-  | .removeLast => let r := d.removeLast m; (⟨some r.1, r.2.1⟩, r.2.2.1, r.2.2.2)
-  | .remove x => let r := d.remove x m; (⟨some r.1, r.2.1⟩, r.2.2.1, r.2.2.2)
-  | .removeAll => (⟨none, none⟩, d.removeAll, m)
-  | .getAt i => let r := d.getAt i m; (⟨some r.1, r.2.1⟩, d, r.2.2)
-  | .getFirst => let r := d.getFirst m; (⟨some r.1, r.2.1⟩, d, r.2.2)
-  | .getLast => let r := d.getLast m; (⟨some r.1, r.2.1⟩, d, r.2.2)
-  | .reverse => let r := d.reverse m; (⟨none, none⟩, r.1, r.2)
-  | .filterMut p => let r := d.filterMut p m; (⟨some r.1, none⟩, r.2.1, r.2.2)
-  | .trim => let r := d.trimCapacity m; (⟨some r.1, none⟩, r.2.1, r.2.2)
-  | .contains x => let r := d.contains x m; (⟨none, some r.1⟩, d, r.2)
-  | .indexOf x => let r := d.indexOf x m; (⟨some r.1, r.2.1⟩, d, r.2.2)
+  | .addFirst x => let r := d.addFirst x m; (⟨some r.1, none, []⟩, r.2.1, r.2.2)
+  | .addLast x => let r := d.addLast x m; (⟨some r.1, none, []⟩, r.2.1, r.2.2)
+  | .addAt x i => let r := d.addAt x i m; (⟨some r.1, none, []⟩, r.2.1, r.2.2)
+  | .replaceAt x i => let r := d.replaceAt x i m; (⟨some r.1, r.2.1, []⟩, r.2.2.1, r.2.2.2)
+  | .removeAt i => let r := d.removeAt i m; (⟨some r.1, r.2.1, []⟩, r.2.2.1, r.2.2.2)
+  | .removeFirst => let r := d.removeFirst m; (⟨some r.1, r.2.1, []⟩, r.2.2.1, r.2.2.2)
+  | .removeLast => let r := d.removeLast m; (⟨some r.1, r.2.1, []⟩, r.2.2.1, r.2.2.2)
+  | .remove x => let r := d.remove x m; (⟨some r.1, r.2.1, []⟩, r.2.2.1, r.2.2.2)
+  | .removeAll => (⟨none, none, []⟩, d.removeAll, m)
+  | .getAt i => let r := d.getAt i m; (⟨some r.1, r.2.1, []⟩, d, r.2.2)
+  | .getFirst => let r := d.getFirst m; (⟨some r.1, r.2.1, []⟩, d, r.2.2)
+  | .getLast => let r := d.getLast m; (⟨some r.1, r.2.1, []⟩, d, r.2.2)
+  | .reverse => let r := d.reverse m; (⟨none, none, []⟩, r.1, r.2)
+  | .filterMut p => let r := d.filterMut p m; (⟨some r.1, none, []⟩, r.2.1, r.2.2)
+  | .trim => let r := d.trimCapacity m; (⟨some r.1, none, []⟩, r.2.1, r.2.2)
+  | .contains x => let r := d.contains x m; (⟨none, some r.1, []⟩, d, r.2)
+  | .indexOf x => let r := d.indexOf x m; (⟨some r.1, r.2.1, []⟩, d, r.2.2)
+  | .size => (⟨none, some d.size, []⟩, d, m)
+  | .foreach => let r := d.foreach m; (⟨none, none, r.1⟩, d, r.2)
+  | .copySwap cp =>
+    let r := d.copy cp m
+    match r.2.1 with
+    | some c => (⟨some r.1, none, []⟩, c, d.destroy r.2.2)      -- cc_deque_destroy(original); continue with the copy
+    | none => (⟨some r.1, none, []⟩, d, r.2.2)
 
 /-- finding D3's range, relative to the number of elements before the call -/
 def inD3 (size : Nat) : Op → Prop
   | .addAt _ i => 1 ≤ i ∧ i + 1 ≤ size / 2
   | _ => False
 
+/-- an allocator call of the operation is refused (the copy makes two calls, everything else one) -/
+def refusalFires (d : Deque) (m : Mem) : Op → Prop
+  | .copySwap _ => (m.allocT d.triple).1 = false ∨ ((m.allocT d.triple).2.allocT d.triple).1 = false
+  | _ => (m.allocT d.triple).1 = false
+
+theorem not_refusalFires (d : Deque) (m : Mem) (op : Op) (hn : Deque.neverRefuses d.triple m) :
+    ¬ refusalFires d m op := by
+  have h1 := Deque.allocT_of_neverRefuses d.triple m hn
+  have h2 := Deque.allocT_of_neverRefuses d.triple _ h1.2.1
+  intro h
+  cases op <;> simp only [refusalFires] at h <;> first
+    | (rw [h1.1] at h; exact absurd h (by decide))
+    | (rcases h with h | h
+       · rw [h1.1] at h; exact absurd h (by decide)
+       · rw [h2.1] at h; exact absurd h (by decide))
+
 /-- **One step, every layout (partial on D3).**  From any state satisfying the invariant, an operation
 outside finding D3's range either behaves exactly like the ideal list — same status and out-value, the
 abstraction commutes, the invariant is preserved, the ledger stays balanced and nothing faults — or it
 is an allocating operation whose allocation was refused (or the capacity limit `MAX_POW_TWO` is
 reached by a full deque): then it reports `CC_ERR_ALLOC` and the whole state is unchanged. -/
-theorem step_refines (d : Deque) (m : Mem) (op : Op) (hi : d.Inv) (hD3 : ¬ inD3 d.size op) :
+theorem step_refines_partial (d : Deque) (m : Mem) (op : Op) (hi : d.Inv) (hD3 : ¬ inD3 d.size op) :
     ((stepM d m op).1 = (stepS d.abs op).1 ∧ (stepM d m op).2.1.abs = (stepS d.abs op).2 ∧
       (stepM d m op).2.1.Inv ∧ Deque.memSame d.triple (stepM d m op).2.2 m) ∨
-    (op.allocates = true ∧ (stepM d m op).1 = ⟨some .errAlloc, none⟩ ∧ (stepM d m op).2.1 = d ∧
+    (op.allocates = true ∧ (stepM d m op).1 = ⟨some .errAlloc, none, []⟩ ∧ (stepM d m op).2.1 = d ∧
       Deque.memSame d.triple (stepM d m op).2.2 m ∧
-      ((m.allocT d.triple).1 = false ∨ (d.cap = Gen.MAX_POW_TWO ∧ d.size = d.cap))) := by
+      (refusalFires d m op ∨ (d.cap = Gen.MAX_POW_TWO ∧ d.size = d.cap))) := by
   cases op with
   | addFirst x =>
     rcases Deque.addFirst_spec d x m hi with ⟨a1, a2, a3, a4, _⟩ | ⟨a1, a2, a3, a4, a5⟩
@@ -150,6 +182,23 @@ theorem step_refines (d : Deque) (m : Mem) (op : Op) (hi : d.Inv) (hD3 : ¬ inD3
   | indexOf x =>
     obtain ⟨a1, a2, a3⟩ := Deque.indexOf_spec d x m hi
     left; simp only [stepM, stepS, a1, a2]; exact ⟨trivial, trivial, hi, by rw [a3]; exact Deque.memSame_refl _ m⟩
+  | size =>
+    left
+    refine ⟨?_, rfl, hi, Deque.memSame_refl _ m⟩
+    simp [stepM, stepS]
+  | foreach =>
+    obtain ⟨f1, f2⟩ := Deque.foreach_spec d m hi
+    left; simp only [stepM, stepS, f1]; exact ⟨trivial, trivial, hi, by rw [f2]; exact Deque.memSame_refl _ m⟩
+  | copySwap cp =>
+    rcases Deque.copy_spec d cp m hi with ⟨n1, c, n2, n3, n4, _, _, n7, _⟩ | ⟨n1, n2, n3, n4⟩
+    · left
+      have hd := Deque.destroy_ledger d (d.copy cp m).2.2 (by have := n7.1; omega)
+      simp only [stepM, stepS, n2, n1]
+      refine ⟨trivial, ?_, n3, Deque.memD_norm (k := 0) (j := 2) (by simpa using Deque.memD_trans hd n7)⟩
+      cases cp <;> exact n4
+    · right
+      simp only [stepM, n2, n1]
+      exact ⟨rfl, trivial, trivial, n3, Or.inl n4⟩
 
 /-- **a refused allocation is atomic** (every layout, every index, D3's range included for `add_at`):
 whenever one of the allocating operations reports an error, the deque is physically unchanged, the
@@ -189,6 +238,11 @@ theorem step_triple (d : Deque) (m : Mem) (op : Op) : (stepM d m op).2.1.triple 
   | remove x => exact Deque.remove_triple d x m
   | filterMut p => exact Deque.filterMut_triple d p m
   | trim => exact Deque.trimCapacity_triple d m
+  | copySwap cp =>
+    simp only [stepM]
+    split
+    · rename_i c hc; exact Deque.copy_triple d cp m c hc
+    · rfl
   | _ => rfl
 
 /-! ## histories under every refusal schedule -/
@@ -207,7 +261,7 @@ def blocked (d : Deque) (m : Mem) (op : Op) : Bool := (stepM d m op).1.st == som
 /-- the ideal list, told which calls were blocked: a blocked call returns `CC_ERR_ALLOC` and changes
 nothing, every other call is the ideal operation -/
 def stepB (l : List Nat) (ob : Op × Bool) : Out × List Nat :=
-  if ob.2 then (⟨some .errAlloc, none⟩, l) else stepS l ob.1
+  if ob.2 then (⟨some .errAlloc, none, []⟩, l) else stepS l ob.1
 
 def runB (l : List Nat) : List (Op × Bool) → List Out × List Nat
   | [] => ([], l)
@@ -228,6 +282,7 @@ def needsAlloc (d : Deque) : Op → Prop
   | .addFirst _ | .addLast _ => d.size = d.cap
   | .addAt _ i => i < d.size ∧ d.size = d.cap
   | .trim => d.cap ≠ d.size ∧ Deque.upperPow2 d.size ≠ d.cap
+  | .copySwap _ => True
   | _ => False
 
 /-- growing is impossible because the capacity limit `MAX_POW_TWO` is reached -/
@@ -255,41 +310,44 @@ theorem stepS_never_errAlloc (l : List Nat) (op : Op) : (stepS l op).1.st ≠ so
   | trim => simp [stepS]
   | contains x => simp [stepS]
   | indexOf x => simp only [stepS, DequeSpec.indexOf]; cases l.findIdx? (· == x) <;> simp
+  | size => simp [stepS]
+  | foreach => simp [stepS]
+  | copySwap cp => simp [stepS]
 
 /-- **the blocked set is pinned down**: a call is blocked exactly when it has to obtain a new buffer and
 the allocator of the deque's triple refuses, or the documented capacity limit is reached — never
 otherwise, and never for an operation that does not allocate (every layout, D3's range included) -/
 theorem blocked_iff (d : Deque) (m : Mem) (op : Op) (hi : d.Inv) :
-    blocked d m op = true ↔ needsAlloc d op ∧ ((m.allocT d.triple).1 = false ∨ limitHit d op) := by
+    blocked d m op = true ↔ needsAlloc d op ∧ (refusalFires d m op ∨ limitHit d op) := by
   have he := Deque.errAlloc_iff d m
   unfold blocked
   rw [beq_iff_eq]
   have hnon : ∀ op, ¬ inD3 d.size op → op.allocates = false → (stepM d m op).1.st ≠ some .errAlloc := by
     intro op hD hal
-    rcases step_refines d m op hi hD with ⟨s1, _⟩ | ⟨s1, _⟩
+    rcases step_refines_partial d m op hi hD with ⟨s1, _⟩ | ⟨s1, _⟩
     · rw [s1]; exact stepS_never_errAlloc d.abs op
     · rw [hal] at s1; exact absurd s1 (by decide)
   cases op with
   | addFirst x =>
-    simp only [stepM, Option.some.injEq, needsAlloc, limitHit]
+    simp only [stepM, Option.some.injEq, needsAlloc, limitHit, refusalFires]
     rw [(he x 0 hi).2.1]
     constructor
     · rintro ⟨a, b⟩; exact ⟨a, b.symm⟩
     · rintro ⟨a, b⟩; exact ⟨a, b.symm⟩
   | addLast x =>
-    simp only [stepM, Option.some.injEq, needsAlloc, limitHit]
+    simp only [stepM, Option.some.injEq, needsAlloc, limitHit, refusalFires]
     rw [(he x 0 hi).1]
     constructor
     · rintro ⟨a, b⟩; exact ⟨a, b.symm⟩
     · rintro ⟨a, b⟩; exact ⟨a, b.symm⟩
   | addAt x i =>
-    simp only [stepM, Option.some.injEq, needsAlloc, limitHit]
+    simp only [stepM, Option.some.injEq, needsAlloc, limitHit, refusalFires]
     rw [(he x i hi).2.2.1]
     constructor
     · rintro ⟨a, b, c⟩; exact ⟨⟨a, b⟩, c.symm⟩
     · rintro ⟨⟨a, b⟩, c⟩; exact ⟨a, b, c.symm⟩
   | trim =>
-    simp only [stepM, Option.some.injEq, needsAlloc, limitHit]
+    simp only [stepM, Option.some.injEq, needsAlloc, limitHit, refusalFires]
     rw [(he 0 0 hi).2.2.2]
     constructor
     · rintro ⟨a, b, c⟩; exact ⟨⟨a, b⟩, Or.inl c⟩
@@ -309,11 +367,25 @@ theorem blocked_iff (d : Deque) (m : Mem) (op : Op) (hi : d.Inv) :
   | filterMut p => simp only [needsAlloc, false_and, iff_false]; exact hnon _ (fun h => h) rfl
   | contains x => simp only [needsAlloc, false_and, iff_false]; exact hnon _ (fun h => h) rfl
   | indexOf x => simp only [needsAlloc, false_and, iff_false]; exact hnon _ (fun h => h) rfl
+  | size => simp only [needsAlloc, false_and, iff_false]; exact hnon _ (fun h => h) rfl
+  | foreach => simp only [needsAlloc, false_and, iff_false]; exact hnon _ (fun h => h) rfl
+  | copySwap cp =>
+    simp only [needsAlloc, limitHit, refusalFires, true_and, or_false]
+    rcases Deque.copy_spec d cp m hi with ⟨n1, c, n2, _⟩ | ⟨n1, n2, _, n4⟩
+    · obtain ⟨k1, k2⟩ := Deque.copy_alloc_ok d cp m n1
+      simp only [stepM, n2, n1]
+      constructor
+      · intro h; simp at h
+      · rintro (h | h)
+        · rw [h] at k1; exact absurd k1 (by decide)
+        · rw [h] at k2; exact absurd k2 (by decide)
+    · simp only [stepM, n2, n1]
+      exact ⟨fun _ => n4, fun _ => trivial⟩
 
 /-- a blocked call leaves the deque physically unchanged and the ledger balanced (every layout, every
 index: finding D3's range included) -/
 theorem blocked_inert (d : Deque) (m : Mem) (op : Op) (hi : d.Inv) (hb : blocked d m op = true) :
-    (stepM d m op).1 = ⟨some .errAlloc, none⟩ ∧ (stepM d m op).2.1 = d ∧ Deque.memSame d.triple (stepM d m op).2.2 m := by
+    (stepM d m op).1 = ⟨some .errAlloc, none, []⟩ ∧ (stepM d m op).2.1 = d ∧ Deque.memSame d.triple (stepM d m op).2.2 m := by
   have hn := ((blocked_iff d m op hi).mp hb).1
   unfold blocked at hb
   rw [beq_iff_eq] at hb
@@ -335,6 +407,10 @@ theorem blocked_inert (d : Deque) (m : Mem) (op : Op) (hi : d.Inv) (hb : blocked
     simp only [stepM, Option.some.injEq] at hb ⊢
     obtain ⟨a, b⟩ := (hra 0 0).2.2.2 (by rw [hb]; decide)
     exact ⟨by rw [hb], a, b⟩
+  | copySwap cp =>
+    rcases Deque.copy_spec d cp m hi with ⟨n1, c, n2, _⟩ | ⟨n1, n2, n3, _⟩
+    · simp only [stepM, n2, n1] at hb; simp at hb
+    · simp only [stepM, n2, n1]; exact ⟨trivial, trivial, n3⟩
   | _ => exact hn.elim
 
 /-- **C05, all histories, every refusal schedule (partial on D3).**  From any layout satisfying the
@@ -344,7 +420,7 @@ which calls were blocked (`flags`, pinned down by `blocked_iff`): blocked calls 
 change nothing, all others are the ideal operations — so the history continues correctly after any number
 of refused growth steps.  The final content is the ideal list's, the invariant holds (in particular the
 buffer block is exactly `capacity` slots), the ledger is balanced, nothing faulted, the triple is kept. -/
-theorem history_refines_sched (ops : List Op) (d : Deque) (m : Mem) (hi : d.Inv)
+theorem history_refines_sched_partial (ops : List Op) (d : Deque) (m : Mem) (hi : d.Inv)
     (hfree : d3FreeB d.abs (ops.zip (flags d m ops))) :
     (runM d m ops).1 = (runB d.abs (ops.zip (flags d m ops))).1 ∧
     (runM d m ops).2.1.abs = (runB d.abs (ops.zip (flags d m ops))).2 ∧
@@ -362,7 +438,7 @@ theorem history_refines_sched (ops : List Op) (d : Deque) (m : Mem) (hi : d.Inv)
       rw [hb] at hf1 hf2
       simp only [stepB, Bool.false_eq_true, if_false] at hf2 ⊢
       rw [Deque.abs_length] at hf1
-      rcases step_refines d m op hi (hf1 rfl) with ⟨s1, s2, s3, s4⟩ | ⟨_, s1, _⟩
+      rcases step_refines_partial d m op hi (hf1 rfl) with ⟨s1, s2, s3, s4⟩ | ⟨_, s1, _⟩
       · rw [← s2] at hf2
         obtain ⟨r1, r2, r3, r4, r5⟩ := ih (stepM d m op).2.1 (stepM d m op).2.2 s3 hf2
         rw [s2] at r1 r2
@@ -415,10 +491,13 @@ theorem stepS_length_le (l : List Nat) (op : Op) : (stepS l op).2.length ≤ l.l
   | trim => simp [stepS]
   | contains x => simp [stepS]
   | indexOf x => simp [stepS]
+  | size => simp [stepS]
+  | foreach => simp [stepS]
+  | copySwap cp => cases cp <;> simp [stepS]
 
 /-- **Corollary: nothing is blocked** when the allocator never refuses (C-library triple, or an exhausted
 schedule) and the deque stays below `MAX_POW_TWO` elements: the model then equals the plain ideal list. -/
-theorem history_refines (ops : List Op) (d : Deque) (m : Mem) (hi : d.Inv) (hn : Deque.neverRefuses d.triple m)
+theorem history_refines_partial (ops : List Op) (d : Deque) (m : Mem) (hi : d.Inv) (hn : Deque.neverRefuses d.triple m)
     (hbound : d.size + ops.length ≤ Gen.MAX_POW_TWO) (hfree : d3Free d.abs ops) :
     (runM d m ops).1 = (runS d.abs ops).1 ∧ (runM d m ops).2.1.abs = (runS d.abs ops).2 ∧
     (runM d m ops).2.1.Inv ∧ Deque.memSame d.triple (runM d m ops).2.2 m := by
@@ -429,7 +508,7 @@ theorem history_refines (ops : List Op) (d : Deque) (m : Mem) (hi : d.Inv) (hn :
     simp only [List.length_cons] at hbound
     rw [Deque.abs_length] at hf1
     have htr := step_triple d m op
-    rcases step_refines d m op hi hf1 with ⟨s1, s2, s3, s4⟩ | ⟨_, _, _, _, s5⟩
+    rcases step_refines_partial d m op hi hf1 with ⟨s1, s2, s3, s4⟩ | ⟨_, _, _, _, s5⟩
     · have hlen := stepS_length_le d.abs op
       rw [← s2, Deque.abs_length, Deque.abs_length] at hlen
       rw [← s2] at hf2
@@ -441,14 +520,41 @@ theorem history_refines (ops : List Op) (d : Deque) (m : Mem) (hi : d.Inv) (hn :
       exact ⟨by rw [s1, r1], r2, r3, Deque.memSame_trans r4 s4⟩
     · exfalso
       rcases s5 with s5 | ⟨s5, s6⟩
-      · have := (Deque.allocT_of_neverRefuses d.triple m hn).1
-        rw [s5] at this; exact absurd this (by decide)
+      · exact not_refusalFires d m op hn s5
       · have := hi.2.2.2.2.2; omega
+
+/-- **C05 from the constructor, every refusal schedule (partial on D3)**: every configured capacity, either
+constructor, any allocator behaviour from the very first call on.  Either the constructor is refused
+(`CC_ERR_ALLOC`, no object, balanced ledger — exactly when one of its two requests is refused), or it yields
+a deque that carries the given triple and *every* history on it, under whatever schedule remains, refines
+the ideal list told which calls were blocked; the object owns exactly two blocks on its triple throughout
+and nothing faults.  "All configured capacities × all histories × all schedules" in one statement. -/
+theorem new_history_refines_sched_partial (confCap : Nat) (t : Triple) (m0 : Mem) (ops : List Op) :
+    ((Deque.new confCap t m0).1 = .errAlloc ∧ (Deque.new confCap t m0).2.1 = none ∧
+      Deque.memSame t (Deque.new confCap t m0).2.2 m0 ∧
+      ((m0.allocT t).1 = false ∨ ((m0.allocT t).2.allocT t).1 = false)) ∨
+    (∃ d0, Deque.new confCap t m0 = (.ok, some d0, (Deque.new confCap t m0).2.2) ∧ d0.triple = t ∧
+      d0.abs = [] ∧ d0.cap = Deque.upperPow2 confCap ∧
+      (d3FreeB [] (ops.zip (flags d0 (Deque.new confCap t m0).2.2 ops)) →
+        (runM d0 (Deque.new confCap t m0).2.2 ops).1 = (runB [] (ops.zip (flags d0 (Deque.new confCap t m0).2.2 ops))).1 ∧
+        (runM d0 (Deque.new confCap t m0).2.2 ops).2.1.abs =
+          (runB [] (ops.zip (flags d0 (Deque.new confCap t m0).2.2 ops))).2 ∧
+        (runM d0 (Deque.new confCap t m0).2.2 ops).2.1.Inv ∧
+        Deque.memRel t 2 (runM d0 (Deque.new confCap t m0).2.2 ops).2.2 m0)) := by
+  rcases Deque.new_spec confCap t m0 with ⟨n1, d0, n2, n3, n4, n5, n6, n7, _⟩ | ⟨n1, n2, n3, n4⟩
+  · right
+    refine ⟨d0, by rw [← n1, ← n2], n6, n4, n5, fun hfree => ?_⟩
+    obtain ⟨r1, r2, r3, r4, _⟩ := history_refines_sched_partial ops d0 (Deque.new confCap t m0).2.2 n3
+      (by rw [n4]; exact hfree)
+    rw [n4] at r1 r2
+    rw [n6] at r4
+    exact ⟨r1, r2, r3, Deque.memRel_same r4 n7⟩
+  · exact Or.inl ⟨n1, n2, n3, n4⟩
 
 /-- **C05 from the constructor**, for every configured capacity (power of two or not, 0 included) and
 either constructor (`cc_deque_new_conf` → configured triple, `cc_deque_new` → C library triple): the run
 refines the ideal list, the object owns exactly two blocks on its triple throughout, nothing faults -/
-theorem new_history_refines (confCap : Nat) (t : Triple) (m0 : Mem) (hn : Deque.neverRefuses t m0) (ops : List Op)
+theorem new_history_refines_partial (confCap : Nat) (t : Triple) (m0 : Mem) (hn : Deque.neverRefuses t m0) (ops : List Op)
     (hbound : ops.length ≤ Gen.MAX_POW_TWO) (hfree : d3Free [] ops) :
     ∃ d0, Deque.new confCap t m0 = (.ok, some d0, (Deque.new confCap t m0).2.2) ∧ d0.triple = t ∧
       (runM d0 (Deque.new confCap t m0).2.2 ops).1 = (runS [] ops).1 ∧
@@ -457,7 +563,7 @@ theorem new_history_refines (confCap : Nat) (t : Triple) (m0 : Mem) (hn : Deque.
       Deque.memRel t 2 (runM d0 (Deque.new confCap t m0).2.2 ops).2.2 m0 := by
   rcases Deque.new_spec confCap t m0 with ⟨n1, d0, n2, n3, n4, n5, n6, n7, n8, n9⟩ | ⟨n1, _, _, n4⟩
   · have hsz : d0.size = 0 := by have := congrArg List.length n4; simpa using this
-    obtain ⟨r1, r2, r3, r4⟩ := history_refines ops d0 _ n3 (by rw [n6]; exact Deque.memD_neverRefuses n7 hn)
+    obtain ⟨r1, r2, r3, r4⟩ := history_refines_partial ops d0 _ n3 (by rw [n6]; exact Deque.memD_neverRefuses n7 hn)
       (by omega) (by rw [n4]; exact hfree)
     rw [n4] at r1 r2
     rw [n6] at r4
@@ -474,16 +580,21 @@ theorem new_history_refines (confCap : Nat) (t : Triple) (m0 : Mem) (hn : Deque.
 
 /-- **copying preserves element order**: a successful `copy_shallow` is a deque with the same content in
 the same order (deep copy: the images, in order), satisfying the invariant; the source is not an output of
-the builder (value semantics of the model — that the C source is untouched is observed by the harness) -/
-theorem copy_preserves_order (d : Deque) (cp : Option (Nat → Nat)) (m : Mem) (hi : d.Inv) (c : Deque)
-    (h : (d.copy cp m).2.1 = some c) :
-    c.Inv ∧ (cp = none → c.abs = d.abs) ∧ (∀ f, cp = some f → c.abs = d.abs.map f) ∧ c.size = d.size := by
-  rcases Deque.copy_spec d cp m hi with ⟨_, c', n2, n3, n4, _⟩ | ⟨_, n2, _⟩
-  · rw [n2] at h; cases h
+the builder (value semantics of the model — that the C source is untouched is observed by the harness);
+or the copy is refused — exactly when one of its two requests is — and nothing is produced.  Inside
+histories copying is the operation `Op.copySwap`. -/
+theorem copy_preserves_order (d : Deque) (cp : Option (Nat → Nat)) (m : Mem) (hi : d.Inv) :
+    ((d.copy cp m).1 = .ok ∧ ∃ c, (d.copy cp m).2.1 = some c ∧ c.Inv ∧
+      (cp = none → c.abs = d.abs) ∧ (∀ f, cp = some f → c.abs = d.abs.map f) ∧ c.size = d.size ∧
+      c.cap = d.cap ∧ c.triple = d.triple ∧ Deque.memRel d.triple 2 (d.copy cp m).2.2 m) ∨
+    ((d.copy cp m).1 = .errAlloc ∧ (d.copy cp m).2.1 = none ∧ Deque.memSame d.triple (d.copy cp m).2.2 m ∧
+      ((m.allocT d.triple).1 = false ∨ ((m.allocT d.triple).2.allocT d.triple).1 = false)) := by
+  rcases Deque.copy_spec d cp m hi with ⟨n1, c, n2, n3, n4, n5, n6, n7, _⟩ | ⟨n1, n2, n3, n4⟩
+  · left
     have hl := congrArg List.length n4
-    refine ⟨n3, fun e => by subst e; exact n4, fun f e => by subst e; exact n4, ?_⟩
+    refine ⟨n1, c, n2, n3, fun e => by subst e; exact n4, fun f e => by subst e; exact n4, ?_, n5, n6, n7⟩
     cases cp <;> simpa using hl
-  · rw [n2] at h; cases h
+  · exact Or.inr ⟨n1, n2, n3, n4⟩
 
 /-- `size` and `foreach` observe the ideal list: `cc_deque_size` is its length, the callback sequence of
 `foreach` is the list itself, front to back -/
@@ -517,8 +628,8 @@ theorem empty_inert (d : Deque) (m : Mem) (h : d.size = 0) :
 
 /-! ## capacity facts (C20, deque part) -/
 
-/-- the invariant says: capacity is a power of two, `size ≤ capacity`, the buffer block has at least
-`capacity` slots -/
+/-- the invariant says: capacity is a power of two, `size ≤ capacity`, the buffer block is exactly
+`capacity` slots long -/
 theorem inv_capacity (d : Deque) (hi : d.Inv) :
     (∃ k, d.cap = 2 ^ k) ∧ d.size ≤ d.cap ∧ d.buf.length = d.cap ∧ d.cap ≤ Gen.MAX_POW_TWO :=
   ⟨hi.pow2, hi.2.2.2.2.2, hi.2.2.1, hi.2.1⟩
@@ -559,15 +670,24 @@ theorem add_at_front_half_wrong :
 /-- **finding D3, characterised**: inside the excluded range `add_at` is wrong but fully determined — for
 every layout the call (unless its growth is refused) returns `CC_OK` and either inserts one position late
 (deque had to grow, or its ring wraps before `index`, or it starts at slot 0) or overwrites the element at
-`index` and duplicates its predecessor (contiguous, `first ≠ 0`).  So histories through D3 calls are still
-inside a theorem; they just do not refine `List.insertIdx index`. -/
+`index` and duplicates its predecessor (contiguous, `first ≠ 0`).  The result satisfies the invariant and the
+ledger is balanced, so every step theorem applies again afterwards: histories through D3 calls stay inside
+the theorems, they just do not refine `List.insertIdx index` at that call. -/
 theorem add_at_front_half_behaviour (d : Deque) (x i : Nat) (m : Mem) (hi : d.Inv) (hD3 : inD3 d.size (.addAt x i)) :
-    ((stepM d m (.addAt x i)).1.st = some .errAlloc ∧ (stepM d m (.addAt x i)).2.1 = d) ∨
+    (stepM d m (.addAt x i)).2.1.Inv ∧ Deque.memSame d.triple (stepM d m (.addAt x i)).2.2 m ∧
+    (stepM d m (.addAt x i)).2.1.size ≤ d.size + 1 ∧
+    (((stepM d m (.addAt x i)).1.st = some .errAlloc ∧ (stepM d m (.addAt x i)).2.1 = d) ∨
     ((stepM d m (.addAt x i)).1.st = some .ok ∧
       ((d.size = d.cap ∨ (d.first + i) % d.cap < d.first ∨ d.first = 0) →
         (stepM d m (.addAt x i)).2.1.abs = d.abs.insertIdx (i + 1) x) ∧
       (¬ (d.size = d.cap ∨ (d.first + i) % d.cap < d.first ∨ d.first = 0) →
-        (stepM d m (.addAt x i)).2.1.abs = (d.abs.set i x).insertIdx i (d.abs.getD (i - 1) 0))) := by
+        (stepM d m (.addAt x i)).2.1.abs = (d.abs.set i x).insertIdx i (d.abs.getD (i - 1) 0)))) := by
+  obtain ⟨b1, b2, b3, b4⟩ := Deque.addAt_inv d x i m hi
+  have hsize : (d.addAt x i m).2.1.size ≤ d.size + 1 := by
+    by_cases hok : (d.addAt x i m).1 = .ok
+    · rw [(b3 hok).1]; exact Nat.le_refl _
+    · rw [(b4 hok).1]; omega
+  refine ⟨b1, b2, hsize, ?_⟩
   rcases Deque.addAt_front_half_behaviour d x i m hi hD3 with ⟨a1, a2⟩ | ⟨a1, a2, a3⟩
   · exact Or.inl ⟨by simp only [stepM, a1], a2⟩
   · exact Or.inr ⟨by simp only [stepM, a1], a2, a3⟩
@@ -582,6 +702,13 @@ example : (Deque.mk 4 4 3 3 [12, 13, 14, 11] .conf).Inv ∧ (Deque.mk 4 4 3 3 [1
 refused and second growth succeeds — the first call is blocked, the second is not -/
 example : flags (Deque.mk 2 2 1 1 [12, 11] .conf) { sched := [true] } [.addLast 5, .addLast 6] = [true, false] ∧
     (runM (Deque.mk 2 2 1 1 [12, 11] .conf) { sched := [true] } [.addLast 5, .addLast 6]).2.1.abs = [11, 12, 6] := by
+  decide
+
+/-- copying, traversal and size inside a history: a wrapped, exactly full deque is copied (the original is
+destroyed), the copy is traversed, appended to (it grows) and measured -/
+example : (runM (Deque.mk 4 4 3 3 [12, 13, 14, 11] .conf) { live := 2 } [.copySwap none, .foreach, .addLast 5, .size]).1 =
+    [⟨some .ok, none, []⟩, ⟨none, none, [11, 12, 13, 14]⟩, ⟨some .ok, none, []⟩, ⟨none, some 5, []⟩] ∧
+    (runM (Deque.mk 4 4 3 3 [12, 13, 14, 11] .conf) { live := 2 } [.copySwap none, .foreach, .addLast 5, .size]).2.2.live = 2 := by
   decide
 
 end CC.Properties.C05
